@@ -1,6 +1,6 @@
 (* C10 -- listings tell the truth about the archive.  Statements only; proofs in theories/Listing.v. *)
 From Coq Require Import Strings.String Strings.Ascii.
-From P7 Require Import Prelude PyPrims Number Crc32 Header Spec Assign.
+From P7 Require Import Prelude PyPrims Number Crc32 Header Spec Assign AssignProofs.
 From P7 Require Import Listing.
 Open Scope Z_scope.
 
@@ -65,6 +65,19 @@ Example listed_truthful_ex :
                /\ af_crc32 p = Some 907060870 /\ crc_check p (s2z "hello") = true /\ crc_check p (s2z "hellp") = false.
 Proof. do 2 eexists. split; [vm_compute; reflexivity|]. split; [reflexivity|]. vm_compute. repeat split. Qed.
 
+(* "every CRC the format stores for a member is listed" is false of the reader: a CRC stored at folder level for a
+   folder with a single file is not carried to the member when SubStreamsInfo has no CRC record (crc32 = None).
+   What holds: listed_crc_truthful above (a CRC that IS listed is right) and listing_conforms / listing_truthful_on_nice
+   below (listed = the format's, whenever the header graph is the image of the specification header) *)
+Theorem listed_crc_refuted :
+  match s_header 4096 folder_crc_bytes, parse_header 4096 folder_crc_bytes with
+  | Ok sh, Ok h => s_valid sh = true /\ map pl_crc (spec_plans sh) = [Some 891568578]
+                   /\ exists ps, impl_plans h = Ok ps /\ map af_crc32 ps = [None] /\ map af_uncompressed ps = [3]
+  | _, _ => False
+  end.
+Proof. exact listed_crc_folder_refuted_header. Qed.
+Print Assumptions listed_crc_refuted.
+
 (* relative to conformance of the assignment (C06: plans_agree between the format's plans and py7zr's): listed size and
    CRC are the ones the FORMAT gives the entry, the name is the stored name, the directory flag is the format's kind *)
 Theorem listing_conforms : forall dflt h ps ss i s p,
@@ -82,6 +95,25 @@ Example listing_conforms_ex :
   | _, _ => False end.
 Proof. vm_compute. repeat split. Qed.
 
+(* with C06's assign_conforms: on every structurally valid header satisfying `nice`, py7zr opens the archive and every
+   listing shows, entry by entry, what the format assigns *)
+Theorem listing_truthful_on_nice : forall dflt (sh : sheader),
+  nice sh = true ->
+  exists ps, impl_plans (embed sh) = Ok ps /\
+    forall i s p, nth_error (spec_plans sh) i = Some s -> nth_error ps i = Some p ->
+      (pl_kind s = 0 -> af_uncompressed p = pl_size s /\ af_crc32 p = pl_crc s)
+      /\ af_filename dflt p = match pl_name s with Some n => n | None => dflt end
+      /\ (af_is_directory p = true <-> pl_kind s = 2).
+Proof.
+  intros dflt sh Hn. destruct (assign_conforms sh Hn) as (ps & Hi & Hag). exists ps. split; [exact Hi|].
+  intros i s p Hs Hp. exact (listing_conforms_plans dflt (embed sh) ps (spec_plans sh) i s p Hi Hag Hs Hp).
+Qed.
+Print Assumptions listing_truthful_on_nice.
+
+Example listing_truthful_on_nice_ex :
+  match s_header 4096 ex1_bytes with Ok sh => nice sh = true /\ length (spec_plans sh) = 3%nat | Err _ => False end.
+Proof. vm_compute. split; reflexivity. Qed.
+
 (* ---- directories ---- *)
 Theorem is_directory_iff : forall h ps p,
   impl_plans h = Ok ps -> In p ps ->
@@ -97,80 +129,90 @@ Example is_directory_ex :
 Proof. eexists. split; [vm_compute; reflexivity|]. split; vm_compute; reflexivity. Qed.
 
 (* ---- getinfo ---- *)
-(* full statement (every listed name is found as it stands) is false: a stored name that itself ends in '/' *)
-Theorem getinfo_total_refuted :
-  exists dflt h ps n, impl_plans h = Ok ps /\ In n (getnames dflt ps) /\ getinfo dflt ps n = None.
-Proof. exact getinfo_total_refuted_header. Qed.
-Print Assumptions getinfo_total_refuted.
+(* every listed name is found, as it stands (first member of that name) and with a slash appended *)
+Theorem getinfo_total : forall dflt h ps n,
+  impl_plans h = Ok ps -> In n (getnames dflt ps) ->
+  (exists j p, getinfo dflt ps n = Some (j, p) /\ nth_error ps (Z.to_nat j) = Some p /\ af_filename dflt p = n
+               /\ (forall q, In q (firstn (Z.to_nat j) ps) -> af_filename dflt q <> n))
+  /\ (exists j p, getinfo dflt ps (n ++ [47]) = Some (j, p) /\ nth_error ps (Z.to_nat j) = Some p
+                  /\ (af_filename dflt p = n ++ [47]
+                      \/ (~ In (n ++ [47]) (getnames dflt ps) /\ af_filename dflt p = n))).
+Proof. exact getinfo_total_header. Qed.
+Print Assumptions getinfo_total.
 
-(* what holds: with a slash appended every listed name is found ... *)
-Theorem getinfo_finds_slashed : forall dflt ps n,
-  In n (getnames dflt ps) ->
-  exists j p, getinfo dflt ps (n ++ [47]) = Some (j, p) /\ nth_error ps (Z.to_nat j) = Some p /\ af_filename dflt p = n.
-Proof. exact getinfo_finds_slashed_plans. Qed.
-Print Assumptions getinfo_finds_slashed.
-
-(* ... as it stands every listed name not ending in '/' is found, and the member returned is the first of that name ... *)
-Theorem getinfo_total_partial : forall dflt ps n,
-  In n (getnames dflt ps) -> ~ ends_with_slash n ->
-  exists j p, getinfo dflt ps n = Some (j, p) /\ nth_error ps (Z.to_nat j) = Some p /\ af_filename dflt p = n
-              /\ (forall q, In q (firstn (Z.to_nat j) ps) -> af_filename dflt q <> n).
-Proof. exact getinfo_finds_plain_plans. Qed.
-Print Assumptions getinfo_total_partial.
-
-(* ... and KeyError exactly when the name with one trailing slash removed is not listed *)
+(* KeyError exactly when neither the name nor the name with one trailing slash removed is listed *)
 Theorem getinfo_keyerror_iff : forall dflt ps n,
-  getinfo dflt ps n = None <-> ~ In (remove_trailing_slash n) (getnames dflt ps).
+  getinfo dflt ps n = None <-> ~ In n (getnames dflt ps) /\ ~ In (remove_trailing_slash n) (getnames dflt ps).
 Proof. exact getinfo_keyerror_iff_plans. Qed.
 Print Assumptions getinfo_keyerror_iff.
+
+Theorem getinfo_sound : forall dflt ps n j p,
+  getinfo dflt ps n = Some (j, p) ->
+  nth_error ps (Z.to_nat j) = Some p /\ (af_filename dflt p = n \/ af_filename dflt p = remove_trailing_slash n).
+Proof. exact getinfo_sound_plans. Qed.
+Print Assumptions getinfo_sound.
 
 Example getinfo_ex :
   exists ps, impl_plans ex1 = Ok ps
              /\ option_map fst (getinfo [] ps (s2z "t/a")) = Some 1 /\ option_map fst (getinfo [] ps (s2z "t/a/")) = Some 1
              /\ option_map fst (getinfo [] ps (s2z "t/")) = Some 0 /\ getinfo [] ps (s2z "t/c") = None
-             /\ getinfo [] ps (s2z "t//") = None /\ ~ ends_with_slash (s2z "t/a").
-Proof.
-  eexists. split; [vm_compute; reflexivity|]. repeat (split; [vm_compute; reflexivity|]).
-  intros [r Hr]. apply (f_equal (@rev Z)) in Hr. rewrite rev_app_distr in Hr. vm_compute in Hr. discriminate.
-Qed.
+             /\ getinfo [] ps (s2z "t//") = None.
+Proof. eexists. split; [vm_compute; reflexivity|]. repeat split. Qed.
+
+(* the former counterexample: a stored name "d/" is found as "d/" and as "d//", and "d" is not a member *)
+Example getinfo_slash_name_ex :
+  exists ps, impl_plans (mkHeader None (Some [mkFile true (Some (s2z "d/")) None None None (Some (Some 16))]) [false]) = Ok ps
+             /\ option_map fst (getinfo [] ps (s2z "d/")) = Some 0 /\ option_map fst (getinfo [] ps (s2z "d//")) = Some 0
+             /\ getinfo [] ps (s2z "d") = None.
+Proof. exact getinfo_slash_name_header. Qed.
 
 (* ---- archiveinfo ---- *)
 Theorem archiveinfo_agrees : forall (hn : bool) (h : header) (a : ainfo),
   archiveinfo hn h = Ok a ->
-  exists ps st folders sub,
-    impl_plans h = Ok ps /\ ps <> [] /\ h_streams h = Some st /\ si_folders st = Some folders /\ si_sub st = Some sub
-    /\ ai_uncompressed a = sumZ (map ip_size ps)
-    /\ ai_blocks a = zlen folders
-    /\ (ai_solid a = true <-> exists n, In n (s_nums sub) /\ 1 < n)
-    /\ ai_method_names a = get_methods_names (map f_coders folders).
+  exists ps,
+    impl_plans h = Ok ps /\ ai_uncompressed a = sumZ (map ip_size ps)
+    /\ match h_streams h with
+       | None => ai_blocks a = 0 /\ ai_solid a = false /\ ai_method_names a = []
+       | Some st =>
+           exists folders sub,
+             si_folders st = Some folders /\ si_sub st = Some sub
+             /\ ai_blocks a = zlen folders
+             /\ (ai_solid a = true <-> exists n, In n (s_nums sub) /\ 1 < n)
+             /\ ai_method_names a = get_methods_names (map f_coders folders)
+       end.
 Proof. exact archiveinfo_agrees_header. Qed.
 Print Assumptions archiveinfo_agrees.
 
-(* "archiveinfo() answers for every archive" is false: the empty archive (functools.reduce without initial value) ... *)
-Theorem archiveinfo_empty_refuted :
-  parse_header 100 [] = Ok empty_header /\ parse_header 100 [1; 0] = Ok empty_header
-  /\ impl_plans empty_header = Ok [] /\ archiveinfo true empty_header = Err EOther.
-Proof. exact archiveinfo_empty_refuted_header. Qed.
-Print Assumptions archiveinfo_empty_refuted.
-
-(* ... and an archive of directories / empty files stored without main streams *)
-Theorem archiveinfo_nostreams_refuted :
-  (exists ps, impl_plans nostreams_header = Ok ps /\ map (af_filename []) ps = [s2z "d"; s2z "e"])
-  /\ archiveinfo true nostreams_header = Err EOther.
-Proof. exact archiveinfo_nostreams_refuted_header. Qed.
-Print Assumptions archiveinfo_nostreams_refuted.
-
-(* what holds: it answers whenever there is a member and main streams with folders and SubStreamsInfo *)
-Theorem archiveinfo_partial : forall (h : header) ps st folders sub,
-  impl_plans h = Ok ps -> ps <> [] -> h_streams h = Some st -> si_folders st = Some folders -> si_sub st = Some sub ->
+(* it answers for every archive opened by path: no members, no main streams, anything -- provided main streams, when
+   present, carry folders and SubStreamsInfo (py7zr does not open an archive with data members and no SubStreamsInfo) *)
+Theorem archiveinfo_total : forall (h : header) ps,
+  impl_plans h = Ok ps ->
+  (forall st, h_streams h = Some st -> si_folders st <> None /\ si_sub st <> None) ->
   exists a, archiveinfo true h = Ok a.
-Proof. exact archiveinfo_partial_header. Qed.
-Print Assumptions archiveinfo_partial.
+Proof. exact archiveinfo_total_header. Qed.
+Print Assumptions archiveinfo_total.
+
+(* the former counterexamples *)
+Theorem archiveinfo_empty :
+  parse_header 100 [] = Ok empty_header /\ parse_header 100 [1; 0] = Ok empty_header
+  /\ impl_plans empty_header = Ok [] /\ archiveinfo true empty_header = Ok (mkAinfo [] false 0 0).
+Proof. exact archiveinfo_empty_header. Qed.
+Print Assumptions archiveinfo_empty.
+
+Theorem archiveinfo_nostreams :
+  (exists ps, impl_plans nostreams_header = Ok ps /\ map (af_filename []) ps = [s2z "d"; s2z "e"])
+  /\ archiveinfo true nostreams_header = Ok (mkAinfo [] false 0 0).
+Proof. exact archiveinfo_nostreams_header. Qed.
+Print Assumptions archiveinfo_nostreams.
 
 Example archiveinfo_ex :
   archiveinfo true ex1 = Ok (mkAinfo [s2z "COPY"] true 1 8)
-  /\ archiveinfo true ex2 = Ok (mkAinfo [s2z "COPY"; s2z "7zAES"] false 1 3).
-Proof. split; vm_compute; reflexivity. Qed.
+  /\ archiveinfo true ex2 = Ok (mkAinfo [s2z "COPY"; s2z "7zAES"] false 1 3)
+  /\ (forall st, h_streams ex1 = Some st -> si_folders st <> None /\ si_sub st <> None).
+Proof.
+  split; [vm_compute; reflexivity|]. split; [vm_compute; reflexivity|].
+  intros st H. vm_compute in H. inversion H; subst. split; discriminate.
+Qed.
 
 (* method names: exactly the display-list names carried by some coder; display order; no repetition *)
 Theorem method_names_sound_complete : forall (cl : list (list coder)) (n : str),
@@ -184,29 +226,17 @@ Theorem method_names_order : forall (cl : list (list coder)),
 Proof. exact method_names_display_order. Qed.
 Print Assumptions method_names_order.
 
-(* "every supported coder present is named" is false: a Delta coder (and a Brotli coder) is never named *)
-Theorem method_names_refuted :
-  exists cl cs c m, In cs cl /\ In c cs /\ In m supported_methods /\ c_method c = m_id m
-                    /\ ~ In (m_name m) (get_methods_names cl).
-Proof. exact method_names_complete_refuted. Qed.
-Print Assumptions method_names_refuted.
-
-Theorem method_names_brotli_refuted :
-  get_methods_names [[brotli_coder]] = [] /\ In (s2z "Brotli") (map m_name supported_methods)
-  /\ get_filter_id brotli_coder = Some 55.
-Proof. exact Listing.method_names_brotli_refuted. Qed.
-Print Assumptions method_names_brotli_refuted.
-
-(* what holds: every supported coder other than Delta and Brotli is named *)
-Theorem method_names_partial : forall (cl : list (list coder)) cs c m,
+(* every coder whose method py7zr supports is named *)
+Theorem method_names_complete : forall (cl : list (list coder)) cs c m,
   In cs cl -> In c cs -> In m supported_methods -> c_method c = m_id m ->
-  ~ In m undisplayed -> In (m_name m) (get_methods_names cl).
-Proof. exact method_names_complete_partial. Qed.
-Print Assumptions method_names_partial.
+  In (m_name m) (get_methods_names cl).
+Proof. exact method_names_complete_all. Qed.
+Print Assumptions method_names_complete.
 
-Theorem undisplayed_are_delta_brotli : map m_name undisplayed = [s2z "DELTA"; s2z "Brotli"].
-Proof. exact undisplayed_methods. Qed.
-Print Assumptions undisplayed_are_delta_brotli.
+Example method_names_ex :
+  get_methods_names [[delta_coder; mkCoder [33] 1 1 (Some [24])]; [brotli_coder]]
+  = [s2z "LZMA2"; s2z "DELTA"; s2z "Brotli"].
+Proof. exact method_names_delta_brotli. Qed.
 
 (* ---- needs_password ---- *)
 Theorem needs_password_iff : forall (pw : bool) (h : header) (b : bool),
